@@ -17,6 +17,7 @@ func fromField(v ssa.Value, f *types.Var) bool {
 }
 
 func checkC07(p *load.Program, r *kit.Report) {
+	importRules(p, r, "C10", "a reorganisation is announced from the fork point, which IntersectHash finds by walking the parent links of both branches and reads through the parents' height maps: Clean must re-attach every branch to the rebuilt objects and keep in memory the headers every side branch forks from, or the switch is made silently (\"Intersect not found/missing\")", 2, nil, "COVER-ALL")
 	r.NotDecided = "that a subscriber's reconstruction equals the reported chain for every tree shape (IntersectHash's result as a value); behaviour when the 10000-slot buffer is full; histories."
 	r.Rule("WRITERS", "sends on subscriber channels (elements of Repository.newHeadersChannels) happen only in ProcessHeader and sendBranchUpdate, close only in Stop, registration only in GetNewHeadersAvailableChannel", 4)
 	r.Rule("MUST-PASS", "on the accepting paths of ProcessHeader exactly one announcement (sendBranchUpdate xor the single-header loop) is made when the header ends on the best branch, and none when it does not; a tip switch is always announced with sendBranchUpdate(new, old) before repo.longest is stored", 5)
